@@ -9,6 +9,9 @@
 using namespace adept;
 using verif::SpyStack;
 
+#ifdef RJHOGAN_ADEPT_2_VERIF
+namespace adept { extern int verif_omp_blocks_[256]; }
+#endif
 static SpyStack* st = 0;
 static std::map<long, adouble*> vars;
 
@@ -208,6 +211,13 @@ int main() {
         } else std::cout << "bad-op\n";
       } else if (w[0] == "threads" && w.size() == 2) {
         std::cout << "ok " << st->set_max_jacobian_threads(atoi(w[1].c_str())) << "\n";
+      } else if (w[0] == "ompstat") {
+        // hook H3: blocks processed per OpenMP thread id since the last call (harness-only information)
+        std::cout << "O";
+#ifdef RJHOGAN_ADEPT_2_VERIF
+        for (int i = 0; i < 256; ++i) { if (adept::verif_omp_blocks_[i]) std::cout << " " << i << ":" << adept::verif_omp_blocks_[i]; adept::verif_omp_blocks_[i] = 0; }
+#endif
+        std::cout << "\n";
       } else if (w[0] == "tape") print_tape();
       else if (w[0] == "val" && w.size() == 2) {
         long k = atol(w[1].c_str());
